@@ -23,6 +23,7 @@ from __future__ import annotations
 
 import asyncio
 import collections
+import errno
 import gc
 import json
 import os
@@ -35,7 +36,7 @@ from . import common
 from .common import Check, Graph, impl_call
 
 INVS = ["TypeOK", "ClaimConsistent", "CircuitsAnchored"]
-PROPS = ["GhostsRight", "AnnounceRule", "CloseRule", "ClaimRule", "DeliveredOnce", "UseCircuitRule", "DiscardsInert", "NoCrossTalk", "OnlyNamedChanges",
+PROPS = ["GhostsRight", "AnnounceRule", "CloseRule", "SendFaultRule", "ClaimRule", "DeliveredOnce", "UseCircuitRule", "DiscardsInert", "NoCrossTalk", "OnlyNamedChanges",
          "OpenStaysDeliverable"]
 SOCKS_BAD = ("badrsv", "badfrag", "badatyp", "shortsocks")
 LLUDP_BAD = ("short", "unkmsg")
@@ -270,9 +271,21 @@ class FakeDatagramTransport:
     def __init__(self, sink, a):
         self.sink, self.a = sink, a
         self.closed = False
+        self.protocol = None
+        self.fault = "none"      # armed by World.recv for ONE datagram
+        self.fired = False
 
     def sendto(self, data, addr=None):
         self.sink.append((self.a, bytes(data), addr))     # also when closed: nothing may be sent then
+        if self.fault != "none":
+            # the operating system refuses this one datagram (it is lost), reported as asyncio does
+            kind, self.fault, self.fired = self.fault, "none", True
+            exc = OSError(errno.EMSGSIZE, "Message too long")
+            if kind == "raise":
+                raise exc
+            handler = getattr(self.protocol, "error_received", None)
+            if handler is not None:
+                handler(exc)
 
     def close(self):
         self.closed = True
@@ -415,6 +428,7 @@ class World:
         def hook(factory):
             proto = factory()
             tr = FakeDatagramTransport(self.sink, a)
+            tr.protocol = proto
             proto.connection_made(tr)
             c["dgram"] = tr
             self.protos[a - 1] = proto
@@ -560,10 +574,16 @@ class World:
         name, data = src[self.cursor % len(src)]
         return name, _with_pid(data, self._next_pid())
 
-    def recv(self, a, data, src):
-        """One datagram on the socket of association a.  Returns (sends, raised)."""
+    def recv(self, a, data, src, fault="none"):
+        """One datagram on the socket of association a; fault: the first datagram the proxy hands to that
+        association's transport while handling it is refused ("err" / "raise", see FakeDatagramTransport).
+        Returns (sends, raised); self.fault_fired tells whether a datagram was refused."""
         del self.sink[:]
+        tr = self.ctl[a - 1]["dgram"]
+        tr.fault, tr.fired = fault, False
         st, r = impl_call(self.protos[a - 1].datagram_received, data, src)
+        self.fault_fired = tr.fired
+        tr.fault = "none"
         _pump()
         return list(self.sink), (r if st == "raise" else None)
 
@@ -671,7 +691,9 @@ def _apply(w: World, lay, act):
         _pump()
         return "Reg:" + way, b"", list(w.sink), None
     label, pl, dgram, src = _concretise(w, lay, act)
-    sends, raised = w.recv(act["a"], dgram, src)
+    sends, raised = w.recv(act["a"], dgram, src, act.get("ft", "none"))
+    if raised and act.get("ft") == "raise" and w.fault_fired and raised.startswith("OSError"):
+        raised = None        # the environment's own refusal coming back out of sendto(), not an escape of the code
     return label, pl, sends, raised
 
 
@@ -807,7 +829,7 @@ def _groups(skey):
     for i in _G.out.get(skey, ()):
         e = _G.edges[i]
         act = e["act"]
-        groups.setdefault((act["n"], act["a"], act["h"], act["k"], act["s"]), []).append(e)
+        groups.setdefault((act["n"], act["a"], act["h"], act["k"], act["s"], act["ft"]), []).append(e)
     return list(groups.values())
 
 
@@ -1131,7 +1153,9 @@ def _walk(pool: Pool, seed, NA, NS, NH, length):
             s = 0
             if k == "ucc":
                 # a viewer names its own session once it holds one (value read from the real object)
-                s = held_s if held_s else rng.choice([0] + list(range(1, NS + 1)) * 3)
+                # mostly its own session once it holds one (value read from the real object), but also another
+                # live one's, a pending login's or an unknown ID
+                s = held_s if held_s and rng.random() < 0.7 else rng.choice([0] + list(range(1, NS + 1)) * 3)
             label, pl = w.payload("C", "msg" if k in SOCKS_BAD or k == "dom" else k, s)
             tgt = sims[h - 1] if h else unk
             if step >= selfie_from and rng.random() < 0.08:
@@ -1146,8 +1170,12 @@ def _walk(pool: Pool, seed, NA, NS, NH, length):
                 dgram = b"\x00\x00\x00\x03" + bytes([len(nm)]) + nm + struct.pack("!H", tgt["port"]) + pl
             else:
                 dgram = sock_hdr(tgt) + pl
-            sends, raised = w.recv(a, dgram, w.clients[a - 1])
-            evs.append({"ev": "C", "a": a, "src": clients[a - 1], "data": list(dgram), "k": k, "s": s, "label": label,
+            arm = rng.choice(["err", "raise"]) if k in ("msg", "ucc") and rng.random() < 0.06 else "none"
+            sends, raised = w.recv(a, dgram, w.clients[a - 1], arm)
+            ft = arm if w.fault_fired else "none"      # only a datagram that was sent can have been refused
+            if ft == "raise":
+                raised = None
+            evs.append({"ev": "C", "a": a, "src": clients[a - 1], "data": list(dgram), "k": k, "s": s, "ft": ft, "label": label,
                         "sent": sent_json(sends), "raised": raised or "", "proj": w.proj()})
             if sends:
                 stats["fwd_c"] += 1
@@ -1169,8 +1197,12 @@ def _walk(pool: Pool, seed, NA, NS, NH, length):
                     s = rng.choice([0] + list(range(1, NS + 1)) * 3)
                 label, pl = w.payload("H", k, s)
             src = sims[h - 1] if h else unk
-            sends, raised = w.recv(a, pl, _addr(src))
-            evs.append({"ev": "H", "a": a, "src": src, "data": list(pl), "k": k, "s": s, "label": label,
+            arm = rng.choice(["err", "raise"]) if k in ("msg", "ucc") and rng.random() < 0.06 else "none"
+            sends, raised = w.recv(a, pl, _addr(src), arm)
+            ft = arm if w.fault_fired else "none"
+            if ft == "raise":
+                raised = None
+            evs.append({"ev": "H", "a": a, "src": src, "data": list(pl), "k": k, "s": s, "ft": ft, "label": label,
                         "sent": sent_json(sends), "raised": raised or "", "proj": w.proj()})
             if sends:
                 stats["fwd_h"] += 1
@@ -1227,14 +1259,18 @@ def _churn_walk(pool: Pool, seed, NA, NS, NH, n_far):
 
     def viewer(a, dgram, k, s, label):
         sends, raised = w.recv(a, dgram, w.clients[a - 1])
-        evs.append({"ev": "C", "a": a, "src": clients[a - 1], "data": list(dgram), "k": k, "s": s, "label": label,
+        evs.append({"ev": "C", "a": a, "src": clients[a - 1], "data": list(dgram), "k": k, "s": s, "ft": "none", "label": label,
                     "sent": sent_json(sends), "raised": raised or "", "proj": w.proj()})
         stats["fwd_c" if sends else "discards"] += 1
 
     def far(a, src, k, s=0):
         label, pl = w.payload("H", k, s)
-        sends, raised = w.recv(a, pl, _addr(src))
-        evs.append({"ev": "H", "a": a, "src": src, "data": list(pl), "k": k, "s": s, "label": label,
+        arm = rng.choice(["err", "raise"]) if k in ("msg", "ucc") and rng.random() < 0.04 else "none"
+        sends, raised = w.recv(a, pl, _addr(src), arm)
+        ft = arm if w.fault_fired else "none"
+        if ft == "raise":
+            raised = None
+        evs.append({"ev": "H", "a": a, "src": src, "data": list(pl), "k": k, "s": s, "ft": ft, "label": label,
                     "sent": sent_json(sends), "raised": raised or "", "proj": w.proj()})
         if sends:
             stats["fwd_h"] += 1
@@ -1425,6 +1461,12 @@ def run(chk: Check):
         "an exception escaping datagram_received is a discard (asyncio logs and drops it)",
         "every association is created by SOCKS5Server.handle_connection (greeting + UDP ASSOCIATE fed to a StreamReader, fake "
         "datagram endpoint) and ends with EOF on that reader; a closed association receives no datagrams (its socket is closed)",
+        "send faults: the transport refuses exactly one handed-over datagram (recorded as handed over, then either "
+        "error_received(OSError(EMSGSIZE)) is called from inside sendto() as asyncio does, or sendto() raises); the refusal "
+        "coming back out of datagram_received in the raise variant is the environment's, not an escape of the code",
+        "a UseCircuitCode on an association that already holds a session is an ordinary message whatever session it names "
+        "(own, other live, pending login's, unknown): forwarded, the circuit to a registered region of the HELD session (re)opened, "
+        "nothing claimed or ended (for a pending login's ID this is what the pinned code does)",
         "packet IDs of valid datagrams are arbitrary 32-bit values in arbitrary order (repeats, wrap-around, jumps of more "
         "than the injection window up and down); the forwarded bytes, ID included, are compared / recomputed by TLC",
         "domain-name (ATYP 3) requests never match a circuit: circuits are keyed by IP address and port",
